@@ -238,20 +238,24 @@ def compress (z : ZCodec) (d : BList) (c : Codec) (w h depth version : Nat) : Ex
     | .error e => .error e
     | .ok e => .ok (z.deflate e)
 
+/-- `_inflate(data, length)`: zlib through a `decompressobj` that stops at the expected size; a stream holding more
+is rejected with `ValueError` instead of being inflated (repo 72f34ff: a few KB could inflate to gigabytes). -/
+def inflateBounded (z : ZCodec) (data : BList) (length : Nat) : Except Err BList :=
+  match z.inflate data with
+  | none => .error .other
+  | some r => if length < r.length then .error .valueError else .ok r
+
 /-- the value computed by the codec branch of `decompress`. -/
 def decompressBody (z : ZCodec) (data : BList) (c : Codec) (w h depth version : Nat) :
     Except Err BList :=
   match c with
   | .raw => .ok (data.take (w * h * max 1 (depth / 8)))
   | .rle => decodeRle data w h depth version
-  | .zip =>
-    match z.inflate data with
-    | none => .error .other
-    | some r => .ok r
+  | .zip => inflateBounded z data (w * h * max 1 (depth / 8))
   | .zipPred =>
-    match z.inflate data with
-    | none => .error .other
-    | some r => decodePrediction r w h depth
+    match inflateBounded z data (w * h * max 1 (depth / 8)) with
+    | .error e => .error e
+    | .ok r => decodePrediction r w h depth
 
 /-- `decompress`: for `depth ≥ 8` the result length is asserted. -/
 def decompress (z : ZCodec) (data : BList) (c : Codec) (w h depth version : Nat) :
